@@ -43,16 +43,12 @@ Theorem C15_generated : forall ENV T c b,
   Gen.Alloc.try_from_box_bytes_sized ENV T b = Ret (try_from_box_bytes_sized T b) /\
   Gen.Alloc.try_from_box_bytes_slice ENV T b = Ret (try_from_box_bytes_slice T b) /\
   Gen.Alloc.box_bytes_drop ENV b = Ret (match bb_drop b with Some l => Some (bb_ptr b, l) | None => None end).
-Proof.
-  intros ENV T c b.
-  exact (conj (gen_box_bytes_of_sized ENV T c) (conj (gen_box_bytes_of_slice ENV T c)
-        (conj (gen_try_from_box_bytes_sized ENV T b) (conj (gen_try_from_box_bytes_slice ENV T b) (gen_box_bytes_drop ENV b))))).
-Qed.
+Proof. exact gen_box_bytes_all. Qed.
 
 Theorem C15_generated_drop_exact : forall ENV b,
   Gen.Alloc.box_bytes_drop ENV b =
   Ret (if l_size (bb_layout b) =? 0 then None else Some (bb_ptr b, bb_layout b)).
-Proof. intros ENV b. rewrite gen_box_bytes_drop. unfold bb_drop. destruct (l_size (bb_layout b) =? 0); reflexivity. Qed.
+Proof. exact gen_box_bytes_drop_exact. Qed.
 
 Example C15_nonvacuous :
   bb_drop (box_bytes_of_slice (mkTy 4 4) (mkCont 64 0 0)) = None /\
